@@ -20,7 +20,8 @@ FEATURE_TO_FINDING = {
     "hz:retype": "KF-retype", "hz:aug-widen": "KF-aug-widen", "hz:for-var-assign": "KF-for-var-assign",
     "hz:for-bound-expr": "KF-for-bound-reeval", "hz:first-assign-in-loop-branch": "KF-loop-branch-first-assign",
     "hz:list-mutate-nested": "KF-stale-len", "hz:list-str-append-literal": "KF-list-append-literal",
-    "hz:list-float-append-literal": "KF-list-float-append-literal",
+    "hz:list-float-append-literal": "KF-list-float-append-literal", "hz:stmt-call-types": "KF-stmt-call-types",
+    "hz:param-retype": "KF-param-retype-in-body", "hz:list-local": "KF-list-local-leak", "hz:uncalled-helper": "KF-stmt-call-types",
 }
 
 
@@ -36,6 +37,9 @@ def run_case(case):
     out["gen_hazards"] = p["hazards"]
     out["passes"] = passes
     out["py_head"] = r.get("py_events", [])[:6]
+    big = any(e[0] == "SER" and e[2] is not None and abs(e[2]) > 1e8 for e in r.get("py_events", []))
+    ovf = any("overflow" in b for a, b, c in (r.get("san_reports") or []))
+    out["out_of_range"] = bool(big or ovf)
     return out
 
 
@@ -64,6 +68,10 @@ def judge(rep: Report, res: dict, *, clean: bool) -> None:
         return  # rejecting is allowed by C01 (clean failure is C11's business)
     if o in ("py-undefined", "py-budget"):
         rep.count("discarded_not_well_defined")
+        return
+    if res.get("out_of_range"):
+        # the program left the stated +-10^4 integer range (signed overflow seen by UBSan / huge values printed by CPython)
+        rep.count("discarded_outside_integer_range")
         return
     if o == "inconclusive":
         rep.count("inconclusive_cases")
